@@ -36,6 +36,16 @@ def stepC02 (fields : List String) : Option String :=
         | _ => none
       pure (encodeBool (Spec.WFNotice Generated.endRe shape y h (← decodeText pre) (← decodeText trail)) ++ "|" ++
         encodeText (Spec.builtLine shape.1 y h))
+  | ["c02lines", which, pres, blanks, vs, trails] => do
+      -- do the hypotheses of C02_tag_lines hold for this text of tag lines?
+      let pres ← decodeList pres
+      let blanks ← decodeList blanks
+      let vs ← decodeList vs
+      let trails ← decodeList trails
+      let ls : List Spec.TagLineSpec :=
+        (pres.zip (blanks.zip (vs.zip trails))).map fun (p, b, v, t) => ⟨p, b, v, t⟩
+      if ls.length != pres.length || vs.length != pres.length || trails.length != pres.length then none
+      else pure (encodeBool (Spec.WFLines Generated.endRe (← tagOf which) ls))
   | ["decode", bs] => do pure (encodeText (decodedText (← decodeBytes bs)))
   | ["windowlen", bs] => do pure (toString (window (← decodeBytes bs)).length)
   | ["infofile", bs, bad] => do
